@@ -78,11 +78,8 @@ def int_to_roman(num: int) -> str:
 
 def int_to_alphabetic(num: int, reference: Optional[str] = None) -> str:
     if not reference or len(reference) > 1:
-        try:
-            alphabet = ALPHABET_CHARACTERS[reference]
-        except KeyError:
-            msg = "formatting for language {!r} is not supported"
-            raise NotImplementedError(msg.format(reference))
+        # for a language that is not supported the default alphabet is used
+        alphabet = ALPHABET_CHARACTERS.get(reference, ALPHABET_CHARACTERS[None])
 
     elif reference.isdigit():
         for alphabet in OTHER_NUMBERS:
